@@ -352,14 +352,16 @@ def step (st : St) (line : String) : St × String :=
     ({ st with w := { st.w with copies := st.w.copies.modify (idOf y) (fun ce => ce.update x.dw (st.w.item ce.item)) } }, "ok")
   | ["setprop", o, k, v] => ({ st with w := st.w.setProp (parseOwner st.handles o) (parseKey k) (parseVal v) }, "ok")
   | ["getprop", o, k] => (st, showVal (st.w.getProp (parseOwner st.handles o) (parseKey k)))
-  | ["chainlen", o] =>
+  | ["chainlen", o, bound] =>
+    -- "does this owner store at most `bound` links?": the number itself is read on the Go side from debug
+    -- output whose format is nobody's contract, so only the bound is compared
     let n := match parseOwner st.handles o with
       | .table t => (st.w.table t).props.length
       | .column t n => ((st.w.column? t n).map (fun (c : Column) => c.props.length)).getD 0
       | .row r => (st.w.row r).props.length
       | .cell r c => ((st.w.cell? r c).map (fun (c : Cell) => c.props.length)).getD 0
       | .copy n => ((st.w.copies[n]?).map (fun (c : Cell) => c.props.length)).getD 0
-    (st, s!"{n}")
+    (st, if n ≤ natOf bound then "le" else "gt")
   | ["regcb", _t, o, tm, tg, cb] =>
     match parseTime tm with
     | none => (st, "refused")
